@@ -17,7 +17,7 @@ def closed_form(stamps, period, punit, unit, tol):
 
 class C13(Prop):
     id = 'C13'
-    rule_added = '25% of online cases after an earlier run + reset(); 25% of all cases on an object configured differently before. 12% with epoch-size integer time-stamps (beyond 2**53). The first stamp may be negative. 20%: an earlier recording under another period/tolerance on the same object, then set_sampling_period() to the real configuration (offline: the counter continues, so the difference is judged). 15% of the online runs contain an update that fails part-way (sample None), caught by the caller: the counter must equal the count with or without that stamp.'
+    rule_added = 'In every run 2 (thorough 32) runs of 2300-4500 stamps with about half of the gaps out of tolerance. 25% of online cases after an earlier run + reset(); 25% of all cases on an object configured differently before. 12% with epoch-size integer time-stamps (beyond 2**53). The first stamp may be negative. 20%: an earlier recording under another period/tolerance on the same object, then set_sampling_period() to the real configuration (offline: the counter continues, so the difference is judged). 15% of the online runs contain an update that fails part-way (sample None), caught by the caller: the counter must equal the count with or without that stamp.'
     rule = ('time-stamp sequences of 1..50 stamps with dyadic gaps (on-period, exactly on either tolerance bound, '
             'just inside/outside, zero, huge) x period in {1 s, 500 ms, 2 s, 250000 us, 4 ms} x default unit in '
             '{s, ms, us} x tolerance in {0, 1/8, 1/4, 1/2, 1, 0.1 (kept away from the bounds)} x '
@@ -228,6 +228,25 @@ class C13(Prop):
             v.bad('jitter-changes-values', 'robustness differs between jittered and ideal stamps: %s vs %s' % (
                 fmt(out), fmt(out2)))
         return v
+
+
+    def extra(self, ctx):
+        """Long runs: thousands of stamps, about half of the gaps out of tolerance (a counter that saturates, wraps or
+        is kept in a bounded log would show)."""
+        rng = ctx.rng
+        for _ in range(2 if ctx.tier == 'quick' else max(1, 32 // ctx.nshards)):
+            if ctx.out_of_time():
+                break
+            n = rng.choice([2300, 3000, 4500])
+            t, stamps = 0.0, [0.0]
+            for i in range(n - 1):
+                t += 1.0 if rng.random() < 0.5 else rng.choice([2.0, 0.5, 3.0])
+                stamps.append(t)
+            self.check(ctx, {'period': [1, 's'], 'unit': 's', 'tol': 0.125, 'stamps': stamps,
+                             'mode': rng.choice(['online', 'offline', 'online_only', 'offline_only']), 'text': '(x >= 1)',
+                             'values': [rng.choice([0.0, 2.0]) for _ in range(n)], 'after_reset': None, 'fail_at': None,
+                             'preconfig': None, 'earlier_run': None})
+            ctx.count('class:long-runs')
 
 
 PROP = C13()
